@@ -264,8 +264,11 @@ CLAIMED = {
         "form of valid symbols and doubles of 8 bytes - so the storage theorems of C02/C04 apply (read_signals_time_table: the time "
         "table is the strictly increasing list of accepted section time stamps); vec_update_spec / finish_time_step_spec / ve_set_spec / "
         "ve_get_spec (one per-bit record = one symbol of the packed vector; every dispatch carries the packed form of the vector's "
-        "symbols); add_n_bit_change_entry, check_min_state_spec, compress_template_spec (store side of the raw path). Not proved: "
-        "the dispatch schedule of the buffer (each vector once per step with its final value), that the history is the one GHDL meant, "
+        "symbols); time_step_spec (the buffer's schedule over a whole time step: an untouched vector hands the store nothing, every value "
+        "handed over is the vector's symbols at that moment, the last value handed over for a touched vector is its final symbols - the "
+        "per-bit records written in order, first declared element leftmost -, no vector stays marked); add_n_bit_change_entry, "
+        "check_min_state_spec, compress_template_spec (store side of the raw path). Not proved: "
+        "that the history is the one GHDL meant, "
         "the header / string / type / hierarchy sections. Those are decided by running: the extracted model against "
         "ghw::signals::read_signals (hook with explicit decode information) on generated section bytes (both endians, delta cycles, "
         "backwards times, all value types) and on damaged sections, oracle = values of every variable after every cycle from the "
